@@ -3,9 +3,15 @@ from common import *
 
 HOOK_SUITES = True    # joinh_* suites read internals through verif_hooks (hook commit fe5d89e in /repo)
 
-RULE = ('join correspondence: thick polylines (2..6 vertices, widths 2..12, repeated vertices, reversals, colinear and nearly colinear runs, '
+RULE = ('join correspondence: (hook level, feature verif_hooks) Line::extents, LinearEquation, IntersectionParams incl. nearly parallel pairs, '
+        'LineJoin::start/end/from_points with all three stroke offsets, ThickSegment bounding box and scanline intersection, on random '
+        'coordinates up to +-500 and widths 0..40; (public API level) thick polylines (2..6 vertices, widths 2..12, repeated vertices, reversals, colinear and nearly colinear runs, '
         'sharp angles, coordinates on both sides of the axes and up to +-300) through Polyline.into_styled(w).pixels() (exact order), '
-        'draw() (exact fill_solid rectangles) and the styled bounding box, model = extracted Model/Join.v')
+        'draw() (exact fill_solid rectangles) and the styled bounding box; thick triangles (all alignments, with and without fill, sharp and nearly '
+        'flat ones) through pixels(), draw() and the styled bounding box; model = extracted Model/Join.v + Model/JoinTri.v. '
+        'search p_thick: pixels() = draw(), all pixels inside the styled bounding box, and for strokes with segments >= 6 widths and interior '
+        'angles >= 15 degrees a real-number reference: every stroke pixel lies within 1.2 * reach + 1.5 of a segment or within the miter limit '
+        '(2 widths + 2) of a join, and the inner 55 percent of the stroke band along every segment is covered')
 PARTIAL = []
 ASSUMPTIONS = ['join theorems: no saturation in the join intersection (stated as |coordinates| <= 511 for IntersectionParams::intersection, '
                'or as the explicit in-range hypothesis of the raw quotient); widths and coordinates in the range where i32/i64 arithmetic does not overflow']
@@ -22,7 +28,7 @@ def c_mid(rng):
 
 def poly_pts(rng):
     n = rng.choice([2, 2, 3, 3, 3, 4, 4, 5, 6])
-    c = rng.choice([c_small, c_small, c_mid, lambda r: r.randrange(-300, 301)])
+    c = rng.choice([c_small] * 8 + [c_mid] * 7 + [lambda r: r.randrange(-300, 301)])
     pts = []
     for _ in range(n):
         k = rng.random()
@@ -67,7 +73,7 @@ def hook_cases(tier, rng, n):
 
 
 def cases(tier, rng):
-    n = 2500 if tier == 'quick' else 40000
+    n = 1000 if tier == 'quick' else 30000
     # all joins of a small fan: mid at the origin, both arms on a grid, widths 2..6
     G = 3 if tier == 'quick' else 5
     for ax in range(-G, G + 1):
@@ -92,11 +98,11 @@ def cases(tier, rng):
         yield J(rng.choice(['join_tri_pixels', 'join_tri_pixels', 'join_tri_rects']), w, al, fl, *t)
         yield J('join_tri_bbox', w, al, fl, *t)
     if HOOK_SUITES:
-        yield from hook_cases(tier, rng, n)
+        yield from hook_cases(tier, rng, 6 * n)
 
 
 def tri_pts(rng):
-    c = rng.choice([c_small, c_mid, c_mid, lambda r: r.randrange(-200, 201)])
+    c = rng.choice([c_small] * 8 + [c_mid] * 7 + [lambda r: r.randrange(-200, 201)])
     k = rng.random()
     a = (c(rng), c(rng))
     if k < 0.15:     # sharp: two vertices close together, far from the third
